@@ -576,7 +576,7 @@ class RoiSubsetStateNd(SubsetState):
         for att in self._atts:
             raw_comps.append(data[att, view])
         res_shape = raw_comps[0].shape
-        if not self.roi.defined():
+        if not self.roi.defined() or raw_comps[0].size == 0:
             return np.zeros(raw_comps[0].shape, dtype=bool)
 
         if all([att in data.pixel_component_ids for att in self._atts]):
